@@ -9,6 +9,36 @@ package internal
 //@   pure
 //@   ensures fresh(result) && result.namer == rawNamer
 
+//@ func Dumper.Name
+//@   props C03 C11 C05
+//@   requires d != nil && d.namer != nil
+//@   assigns *
+//@   preserves pkg/gengo/snippet. pkg/gengo/internal.
+//@   note the dumper hands the reference to ITS namer (the one of the file being written) and keeps nothing: the only state that may change is the namer's / its import table's
+
+//@ func Dumper.TypeLit
+//@   props C11 C05
+//@   requires d != nil && d.namer != nil && tpe != nil
+//@   assume forall t typesutil.Type :: t != nil ==> t.Elem() != nil && t.Key() != nil
+//@   assume forall t typesutil.Type, i int :: t != nil ==> t.Field(i) != nil && t.Field(i).Type() != nil
+//@   assigns *
+//@   preserves pkg/gengo/snippet. pkg/gengo/internal.
+//@   note frame only (C05: rendering a type literal memoises nothing in snippet values; names go through the file's own namer). What the text MEANS (C11) is not claimed.
+
+//@ func Dumper.ReflectTypeLit
+//@   props C11 C05
+//@   requires d != nil && d.namer != nil
+//@   assume typesutil.FromRType(tpe) != nil
+//@   assigns *
+//@   preserves pkg/gengo/snippet. pkg/gengo/internal.
+
+//@ func Dumper.TypesTypeLit
+//@   props C11 C05
+//@   requires d != nil && d.namer != nil
+//@   assume typesutil.FromTType(tpe) != nil
+//@   assigns *
+//@   preserves pkg/gengo/snippet. pkg/gengo/internal.
+
 // ---- govc prelude: ghost helpers of the clause language (identical in every contracts_verif.go) ----
 
 func spec_old[T any](v T) T                             { return v }
